@@ -85,3 +85,88 @@ package template
 //@   ensures#fields r.dstPkgPath == old(r.dstPkgPath) && r.inPackage == old(r.inPackage) && r.imports == old(r.imports) && r.importQualifiers == old(r.importQualifiers)
 //@   loop 0: invariant aliasSuggestion == originalQualifier || aliasSuggestion != ""
 //@   assigns r.imports, r.importQualifiers, fresh
+
+// ---- template-data validation (C12) ---------------------------------------------------------
+// gojsonschema is uninterpreted: valid(schema, td) is "Validate succeeds and reports Valid()".
+//@ define valid(schema *gojsonschema.Schema, td TemplateData) bool = second(schema.Validate(gojsonschema.NewGoLoader(td))) == nil && schema.Validate(gojsonschema.NewGoLoader(td)).Valid()
+// Package initialisation: ErrTemplateDataSchemaValidation = errors.New(...) is non-nil and never reassigned (assumed).
+//@ axiom errschema_nonnil: ErrTemplateDataSchemaValidation != nil
+//@ func (TemplateData).VerifyJSONSchema props=C12
+//@   ensures (result == nil) <==> valid(schema, t)
+//@   assigns nothing
+
+// ---- go/types facts used below (assumed, listed in the evidence) ---------------------------------
+//@ axiom isinterface_underlying: forall t types.Type :: types.IsInterface(t) ==> dyn(t.Underlying()) == tagof(*types.Interface)
+
+// ---- C02: the interface that is mocked is the one that was looked up ---------------------------
+//@ func (Registry).LookupInterface props=C02
+//@   requires r.srcPkg != nil
+//@   let obj = r.srcPkg.Types.Scope().Lookup(name)
+//@   ensures#missing obj == nil ==> err != nil
+//@   ensures#notiface obj != nil && !types.IsInterface(obj.Type()) ==> err != nil
+//@   ensures#found err == nil ==> obj != nil && types.IsInterface(obj.Type()) && result0 == unbox(*types.Interface, obj.Type().Underlying()).Complete()
+//@   ensures#tparams err == nil && dyn(obj.Type()) == tagof(*types.Named) ==> result1 == unbox(*types.Named, obj.Type()).TypeParams()
+//@   ensures#notparams err == nil && dyn(obj.Type()) != tagof(*types.Named) ==> result1 == nil
+//@   assigns nothing
+
+// ---- MethodScope: variables ---------------------------------------------------------------------
+//   ScopeOK(m): the scope's maps exist and its registry satisfies the registry invariant.
+//@ define ScopeOK(m *MethodScope) bool = m.visibleNames != nil && m.imports != nil && m.registry != nil && allocated(m.registry) && RegInv(m.registry)
+//@     && m.imports != m.registry.imports && m.imports != m.registry.importQualifiers && allocated(m.imports) && allocated(m.visibleNames)
+
+//@ func NewMethodScope props=C15,C14
+//@   requires r != nil && RegInv(r)
+//@   ensures result != nil && fresh(result) && result.registry == r && len(result.vars) == 0 && result.pkgPath == "" && ScopeOK(result) && fresh(result.visibleNames) && fresh(result.imports)
+//@   ensures#quals forall q string :: (q in r.importQualifiers) ==> (q in result.visibleNames)
+//@   ensures#frame RegInv(r) && unchanged(r.imports) && unchanged(r.importQualifiers)
+//@   loop 0: invariant m != nil && m.visibleNames != nil && fresh(m.visibleNames) && m.registry == r && unchanged(r.imports) && unchanged(r.importQualifiers) && r.importQualifiers == old(r.importQualifiers) && r.imports == old(r.imports)
+//@   loop 0: invariant#quals forall q string :: (q in r.importQualifiers) && $visited[q] ==> (q in m.visibleNames)
+//@   loop 0: invariant#others forall mm map[string]any :: mm != m.visibleNames ==> unchanged(mm)
+//@   assigns fresh
+
+// The import bookkeeping of one variable: the package is registered with the file's registry, recorded
+// for the variable and for the scope, and its qualifier becomes a visible name.
+//@ func (*MethodScope).addImport props=C15,C01,C13
+//@   requires ScopeOK(m) && pkg != nil && imports != nil && imports != m.imports && imports != m.registry.imports && imports != m.registry.importQualifiers && allocated(imports)
+//@   ensures#inv ScopeOK(m) && m.registry == old(m.registry)
+//@   ensures#recorded (pkg.Path() in imports) && (pkg.Path() in m.imports) && imports[pkg.Path()] == m.imports[pkg.Path()]
+//@   ensures#onlythis forall p string :: p != pkg.Path() ==> ((p in imports) <==> old(p in imports)) && imports[p] == old(imports[p])
+//@   ensures#names forall n string :: old(n in m.visibleNames) ==> (n in m.visibleNames)
+//@   assigns imports, m.imports, m.visibleNames, m.registry.imports, m.registry.importQualifiers, fresh
+
+// ---- collecting the imports of a type (C01 item 1, partial: bookkeeping invariants and monotonicity;
+// the coverage statement "every package mentioned by t ends up in imports" is not proved here) -------
+//@ axiom unsafe_nonnil: types.Unsafe != nil
+//@ define ImpOK(m *MethodScope, imports map[string]*Package) bool = ScopeOK(m) && imports != nil && imports != m.imports && imports != m.registry.imports
+//@     && imports != m.registry.importQualifiers && allocated(imports)
+//   FrameOK: maps other than the four the import bookkeeping writes, and name sets other than the scope's, are untouched.
+//@ define FrameOK(m *MethodScope, imports map[string]*Package) bool = (forall mm map[string]*Package :: mm != imports && mm != m.imports && mm != m.registry.imports && mm != m.registry.importQualifiers && old(allocated(mm)) ==> unchanged(mm))
+//@     && (forall nn map[string]any :: nn != m.visibleNames && old(allocated(nn)) ==> unchanged(nn))
+//@ func (*MethodScope).populateImportsHelper props=C01,C15
+//@   requires ImpOK(m, imports)
+//@   ensures#inv ImpOK(m, imports) && m.registry == old(m.registry) && m.imports == old(m.imports) && m.visibleNames == old(m.visibleNames)
+//@   ensures#mono forall p string :: old(p in imports) ==> (p in imports)
+//@   ensures#names forall n string :: old(n in m.visibleNames) ==> (n in m.visibleNames)
+//@   loop 0: invariant ImpOK(m, imports) && m.registry == old(m.registry) && m.imports == old(m.imports) && m.visibleNames == old(m.visibleNames) && (forall p string :: old(p in imports) ==> (p in imports)) && (forall n string :: old(n in m.visibleNames) ==> (n in m.visibleNames)) && FrameOK(m, imports)
+//@   loop 1: invariant ImpOK(m, imports) && m.registry == old(m.registry) && m.imports == old(m.imports) && m.visibleNames == old(m.visibleNames) && (forall p string :: old(p in imports) ==> (p in imports)) && (forall n string :: old(n in m.visibleNames) ==> (n in m.visibleNames)) && FrameOK(m, imports)
+//@   loop 2: invariant ImpOK(m, imports) && m.registry == old(m.registry) && m.imports == old(m.imports) && m.visibleNames == old(m.visibleNames) && (forall p string :: old(p in imports) ==> (p in imports)) && (forall n string :: old(n in m.visibleNames) ==> (n in m.visibleNames)) && FrameOK(m, imports)
+//@   loop 3: invariant ImpOK(m, imports) && m.registry == old(m.registry) && m.imports == old(m.imports) && m.visibleNames == old(m.visibleNames) && (forall p string :: old(p in imports) ==> (p in imports)) && (forall n string :: old(n in m.visibleNames) ==> (n in m.visibleNames)) && FrameOK(m, imports)
+//@   loop 4: invariant ImpOK(m, imports) && m.registry == old(m.registry) && m.imports == old(m.imports) && m.visibleNames == old(m.visibleNames) && (forall p string :: old(p in imports) ==> (p in imports)) && (forall n string :: old(n in m.visibleNames) ==> (n in m.visibleNames)) && FrameOK(m, imports)
+//@   loop 5: invariant ImpOK(m, imports) && m.registry == old(m.registry) && m.imports == old(m.imports) && m.visibleNames == old(m.visibleNames) && (forall p string :: old(p in imports) ==> (p in imports)) && (forall n string :: old(n in m.visibleNames) ==> (n in m.visibleNames)) && FrameOK(m, imports)
+//@   assigns imports, m.imports, m.visibleNames, m.registry.imports, m.registry.importQualifiers, fresh
+
+//@ func (*MethodScope).populateImportNamedType props=C01,C15
+//@   requires ImpOK(m, imports) && t != nil
+//@   ensures#inv ImpOK(m, imports) && m.registry == old(m.registry) && m.imports == old(m.imports) && m.visibleNames == old(m.visibleNames)
+//@   ensures#mono forall p string :: old(p in imports) ==> (p in imports)
+//@   ensures#names forall n string :: old(n in m.visibleNames) ==> (n in m.visibleNames)
+//@   ensures#own t.Obj().Pkg() != nil ==> (t.Obj().Pkg().Path() in imports)
+//@   loop 0: invariant ImpOK(m, imports) && m.registry == old(m.registry) && m.imports == old(m.imports) && m.visibleNames == old(m.visibleNames) && (forall p string :: old(p in imports) ==> (p in imports)) && (forall n string :: old(n in m.visibleNames) ==> (n in m.visibleNames)) && FrameOK(m, imports)
+//@   loop 0: invariant#own t.Obj().Pkg() != nil ==> (t.Obj().Pkg().Path() in imports)
+//@   assigns imports, m.imports, m.visibleNames, m.registry.imports, m.registry.importQualifiers, fresh
+
+//@ func (*MethodScope).populateImports props=C01,C15
+//@   requires ScopeOK(m)
+//@   ensures#inv ScopeOK(m) && m.registry == old(m.registry) && m.imports == old(m.imports) && m.visibleNames == old(m.visibleNames) && result != nil && fresh(result)
+//@   ensures#names forall n string :: old(n in m.visibleNames) ==> (n in m.visibleNames)
+//@   assigns m.imports, m.visibleNames, m.registry.imports, m.registry.importQualifiers, fresh
